@@ -348,7 +348,7 @@ def run_history(rec, case):
 
 def plan(tier, seed):
     n = 16
-    per = 6000 if tier == 'thorough' else 450
+    per = 30000 if tier == 'thorough' else 450
     return [{'seed': seed, 'shard': s, 'n': per} for s in range(n)]
 
 
